@@ -17,7 +17,7 @@ pub fn profile() -> Profile {
         id: "C03",
         phase: "history",
         checks: Checks { read: true, versions: true, counts: true, ids: true, ..Default::default() },
-        gen: GenParams { nkeys: 5, ts_span: 5, metas: 3, max_ops: 50, w_write: 40, w_delete: 16, w_switch: 12, w_wait: 10, w_reopen: 14, reopen_damage: true, ..Default::default() },
+        gen: GenParams { nkeys: 5, ts_span: 5, metas: 3, max_ops: 50, w_write: 40, w_delete: 16, w_switch: 12, w_wait: 10, w_reopen: 14, w_lifecycle: 4, w_maint: 6, reopen_damage: true, ..Default::default() },
         keylens: KEY_LENS,
         short_defer: true,
         nt,
@@ -104,7 +104,7 @@ pub fn run(ctx: &RunCtx) -> PropResult {
     PropResult {
         report,
         level: "fault_enumeration",
-        rule: "proptest histories (as C02) with 1-8 close+reopen rounds (eager or lazy init); before each reopen a generated damage list is applied to the index files present: remove, truncate to a length drawn from each layout class (0, inside header, exactly header, inside filter section, inside tree meta, node region, leaf region, len-1, len - one record header, anywhere), written-flag cleared, header zeroed, all removed; stale indexes arise naturally from deletes into already-indexed blobs whose re-dump (60 s deferred in half of the configs) has not happened at close. Oracle after EVERY step: all read/contains/read_all*/read_with answers and all counts equal the reference model (hence equal before and after the restart), next_blob_id as implied by the files, every blob file id known to the model. Non-trivial = a reopen happened after at least one index file was damaged/removed or was stale. distinct = FNV hash of the serialized case.".into(),
+        rule: "proptest histories (as C02, plus close/create/restore of the active blob, filter off-load at every level, free_excess_resources and fsyncdata, so that what a restart reads back from index files - filters and their offsets included - is exercised through every later access path) with 1-8 close+reopen rounds (eager or lazy init); before each reopen a generated damage list is applied to the index files present: remove, truncate to a length drawn from each layout class (0, inside header, exactly header, inside filter section, inside tree meta, node region, leaf region, len-1, len - one record header, anywhere), written-flag cleared, header zeroed, all removed; stale indexes arise naturally from deletes into already-indexed blobs whose re-dump (60 s deferred in half of the configs) has not happened at close. Oracle after EVERY step: all read/contains/read_all*/read_with answers and all counts equal the reference model (hence equal before and after the restart), next_blob_id as implied by the files, every blob file id known to the model. Non-trivial = a reopen happened after at least one index file was damaged/removed or was stale. distinct = FNV hash of the serialized case.".into(),
         assumptions: common_assumptions(),
     }
 }
